@@ -5,8 +5,5 @@ cd "$(dirname "$0")"
 export GOPROXY=off GOSUMDB=off GOTOOLCHAIN=local GOFLAGS=
 (cd lean && lake build)
 mkdir -p bin evidence replays
-for d in harness/cmd/*/; do
-  n=$(basename "$d")
-  (cd harness && go build -o ../bin/$n ./cmd/$n)
-done
+./check --build
 echo setup done
